@@ -264,8 +264,8 @@ def observable(maxops):
 def units(tier):
     for sh, (k, name, sig) in sorted(shapes(tier).items(), key=lambda kv: kv[1][1]):
         for async_ in (False, True):
-            if async_ and tier == "quick" and k > 4:
-                continue
+            if async_ and k > (4 if tier == "quick" else 16):
+                continue        # (large label sets: the threaded structure class only; the two classes share the code path)
             yield Unit(f"notify.{'async' if async_ else 'sync'}.{name[4:]}", notify(sig, async_),
                        max_paths=60000, query_timeout_ms=120000, ratio_floats=True)
     yield Unit("two-items.sync", two_items(False))
